@@ -1,0 +1,303 @@
+//! Verification hooks. Compiled only with `--features verif`; never part of a normal build.
+//!
+//! * an [`Observer`] that is told about durable-image events (mmap writes, length
+//!   changes, syncs, hole punches), named points, raw byte accesses and lock traffic;
+//! * [`TapRawRwLock`], a `lock_api` raw lock wrapping `parking_lot::RawRwLock` that
+//!   reports (and lets the observer schedule) every acquisition and release.
+//!
+//! Events are delivered synchronously on the acting thread, so an observer may block
+//! the thread; that is how delays and schedules are injected.
+
+use std::{
+    cell::Cell,
+    collections::HashMap,
+    sync::{
+        Arc,
+        atomic::{AtomicBool, Ordering},
+    },
+};
+
+use parking_lot::lock_api;
+
+#[derive(Debug, Clone, Copy, PartialEq, Eq, Hash, PartialOrd, Ord)]
+pub enum FileId {
+    Data,
+    Regions,
+}
+
+#[derive(Debug, Clone, Copy, PartialEq, Eq, Hash, PartialOrd, Ord)]
+pub enum Mode {
+    Shared,
+    Exclusive,
+}
+
+#[derive(Debug, Clone, Copy, PartialEq, Eq, Hash, PartialOrd, Ord)]
+pub enum LockClass {
+    Layout,
+    Regions,
+    Mmap,
+    File,
+    Meta,
+    Pages,
+    Header,
+    Other,
+}
+
+#[derive(Debug)]
+pub enum Event<'a> {
+    /// Bytes were stored into the mapping of `file` at `off` (already done).
+    MmapWrite {
+        file: FileId,
+        off: usize,
+        bytes: &'a [u8],
+    },
+    /// `set_len` returned successfully.
+    SetLen { file: FileId, len: usize },
+    /// `msync(MS_ASYNC)` was requested (guarantees nothing).
+    FlushAsync { file: FileId, off: usize, len: usize },
+    /// `fdatasync`/`fsync` of `file` returned successfully.
+    Sync { file: FileId },
+    /// A hole was punched in the data file (already done).
+    Punch { off: usize, len: usize },
+    /// A background thread was spawned by `run_bg` (emitted by the parent).
+    Spawn,
+    /// First / last thing a `run_bg` thread does.
+    ThreadStart,
+    ThreadEnd,
+    /// `sync_bg_tasks` is about to join `pending` threads / has joined them.
+    JoinPre { pending: usize },
+    JoinDone,
+    /// Named point in the code.
+    Point { name: &'static str },
+    /// `len` bytes at address `ptr` (inside a mapping) are about to be read on behalf
+    /// of a reader / vector.
+    Access {
+        ptr: usize,
+        len: usize,
+        site: &'static str,
+    },
+    /// `len` bytes at absolute data-file offset `file_off` were read through a file handle.
+    FileRead {
+        file_off: usize,
+        len: usize,
+        site: &'static str,
+    },
+}
+
+pub trait Observer: Send + Sync {
+    fn event(&self, _e: &Event<'_>) {}
+    /// Called before a tapped lock is acquired. Return `true` to make the tap use
+    /// `try_lock` (reporting `lock_failed` and asking again on failure), `false` to let
+    /// it block in the real lock.
+    fn lock_pre(&self, _addr: usize, _mode: Mode) -> bool {
+        false
+    }
+    fn lock_failed(&self, _addr: usize, _mode: Mode) {}
+    fn lock_acquired(&self, _addr: usize, _mode: Mode) {}
+    fn lock_released(&self, _addr: usize, _mode: Mode) {}
+}
+
+static ACTIVE: AtomicBool = AtomicBool::new(false);
+static OBSERVER: parking_lot::RwLock<Option<Arc<dyn Observer>>> = parking_lot::RwLock::new(None);
+static LOCKS: parking_lot::Mutex<Option<HashMap<usize, (LockClass, usize)>>> =
+    parking_lot::Mutex::new(None);
+
+thread_local! {
+    static MUTE: Cell<u32> = const { Cell::new(0) };
+}
+
+pub fn set_observer(o: Option<Arc<dyn Observer>>) {
+    let mut g = OBSERVER.write();
+    ACTIVE.store(o.is_some(), Ordering::SeqCst);
+    *g = o;
+}
+
+#[inline]
+fn observer() -> Option<Arc<dyn Observer>> {
+    if !ACTIVE.load(Ordering::Relaxed) {
+        return None;
+    }
+    if MUTE.with(|m| m.get()) > 0 {
+        return None;
+    }
+    OBSERVER.read().clone()
+}
+
+/// Runs `f` with event delivery switched off for the current thread.
+pub fn mute<R>(f: impl FnOnce() -> R) -> R {
+    struct G;
+    impl Drop for G {
+        fn drop(&mut self) {
+            MUTE.with(|m| m.set(m.get() - 1));
+        }
+    }
+    MUTE.with(|m| m.set(m.get() + 1));
+    let _g = G;
+    f()
+}
+
+#[inline]
+pub fn emit(e: &Event<'_>) {
+    if let Some(o) = observer() {
+        o.event(e);
+    }
+}
+
+#[inline]
+pub fn point(name: &'static str) {
+    if let Some(o) = observer() {
+        o.event(&Event::Point { name });
+    }
+}
+
+#[inline]
+pub fn access(ptr: *const u8, len: usize, site: &'static str) {
+    if let Some(o) = observer() {
+        o.event(&Event::Access {
+            ptr: ptr as usize,
+            len,
+            site,
+        });
+    }
+}
+
+#[inline]
+pub fn file_read(file_off: usize, len: usize, site: &'static str) {
+    if let Some(o) = observer() {
+        o.event(&Event::FileRead {
+            file_off,
+            len,
+            site,
+        });
+    }
+}
+
+/// Attaches a class (and an owner token, e.g. the address of the database or region)
+/// to the lock whose raw lock lives at `addr`.
+pub fn register_lock(addr: usize, class: LockClass, owner: usize) {
+    LOCKS
+        .lock()
+        .get_or_insert_with(HashMap::new)
+        .insert(addr, (class, owner));
+}
+
+pub fn unregister_lock(addr: usize) {
+    if let Some(m) = LOCKS.lock().as_mut() {
+        m.remove(&addr);
+    }
+}
+
+pub fn lock_info(addr: usize) -> Option<(LockClass, usize)> {
+    LOCKS.lock().as_ref().and_then(|m| m.get(&addr).copied())
+}
+
+/// Address under which the tap reports `lock`.
+pub fn lock_addr<T: ?Sized>(lock: &RwLock<T>) -> usize {
+    // SAFETY: only the address is taken; the raw lock is not operated on.
+    unsafe { lock.raw() as *const TapRawRwLock as usize }
+}
+
+/// `parking_lot::RawRwLock` with every acquisition / release reported.
+pub struct TapRawRwLock(parking_lot::RawRwLock);
+
+impl TapRawRwLock {
+    #[inline]
+    fn addr(&self) -> usize {
+        self as *const Self as usize
+    }
+}
+
+unsafe impl lock_api::RawRwLock for TapRawRwLock {
+    #[allow(clippy::declare_interior_mutable_const)]
+    const INIT: Self = Self(<parking_lot::RawRwLock as lock_api::RawRwLock>::INIT);
+
+    type GuardMarker = <parking_lot::RawRwLock as lock_api::RawRwLock>::GuardMarker;
+
+    #[inline]
+    fn lock_shared(&self) {
+        let Some(o) = observer() else {
+            return self.0.lock_shared();
+        };
+        let addr = self.addr();
+        loop {
+            if o.lock_pre(addr, Mode::Shared) {
+                if self.0.try_lock_shared() {
+                    break;
+                }
+                o.lock_failed(addr, Mode::Shared);
+            } else {
+                self.0.lock_shared();
+                break;
+            }
+        }
+        o.lock_acquired(addr, Mode::Shared);
+    }
+
+    #[inline]
+    fn try_lock_shared(&self) -> bool {
+        let ok = self.0.try_lock_shared();
+        if ok && let Some(o) = observer() {
+            o.lock_acquired(self.addr(), Mode::Shared);
+        }
+        ok
+    }
+
+    #[inline]
+    unsafe fn unlock_shared(&self) {
+        unsafe { self.0.unlock_shared() };
+        if let Some(o) = observer() {
+            o.lock_released(self.addr(), Mode::Shared);
+        }
+    }
+
+    #[inline]
+    fn lock_exclusive(&self) {
+        let Some(o) = observer() else {
+            return self.0.lock_exclusive();
+        };
+        let addr = self.addr();
+        loop {
+            if o.lock_pre(addr, Mode::Exclusive) {
+                if self.0.try_lock_exclusive() {
+                    break;
+                }
+                o.lock_failed(addr, Mode::Exclusive);
+            } else {
+                self.0.lock_exclusive();
+                break;
+            }
+        }
+        o.lock_acquired(addr, Mode::Exclusive);
+    }
+
+    #[inline]
+    fn try_lock_exclusive(&self) -> bool {
+        let ok = self.0.try_lock_exclusive();
+        if ok && let Some(o) = observer() {
+            o.lock_acquired(self.addr(), Mode::Exclusive);
+        }
+        ok
+    }
+
+    #[inline]
+    unsafe fn unlock_exclusive(&self) {
+        unsafe { self.0.unlock_exclusive() };
+        if let Some(o) = observer() {
+            o.lock_released(self.addr(), Mode::Exclusive);
+        }
+    }
+
+    #[inline]
+    fn is_locked(&self) -> bool {
+        self.0.is_locked()
+    }
+
+    #[inline]
+    fn is_locked_exclusive(&self) -> bool {
+        self.0.is_locked_exclusive()
+    }
+}
+
+pub type RwLock<T> = lock_api::RwLock<TapRawRwLock, T>;
+pub type RwLockReadGuard<'a, T> = lock_api::RwLockReadGuard<'a, TapRawRwLock, T>;
+pub type RwLockWriteGuard<'a, T> = lock_api::RwLockWriteGuard<'a, TapRawRwLock, T>;
